@@ -74,6 +74,18 @@ theorem mergeFile_conflict_free :
           some (if ∃ c ∈ mine :: others, c.getD i 0 = truth[i] then truth[i] else day) :=
   @Bd.mergeFile_conflict_free
 
+/-- ... and exactly the lines no copy knows are reported, once each (none at all when the merge value is itself the mark) -/
+theorem mergeFile_conflict_free_reports :
+    ∀ (day : Nat) (mine : List Nat) (others : List (List Nat)) (truth : List Nat)
+    (hlen : ∀ c ∈ mine :: others, c.length = truth.length)
+    (htruth : ∀ t ∈ truth, Mg.isMark t = false)
+    (hall : ∀ c ∈ mine :: others, ∀ i (hi : i < truth.length),
+      Mg.isMark (c.getD i 0) = true ∨ c.getD i 0 = truth[i])
+    (lines : List Nat) (n : Nat) (hm : mergeFile day mine others = some (lines, n)),
+    n = (if Mg.isMark day then 0 else 1) *
+      ((List.range truth.length).filter fun i => !knownAt (mine :: others) truth i).length :=
+  @Bd.mergeFile_conflict_free_reports
+
 /-- per line: some copy knows the origin and no copy claims another one - the origin is kept and nothing is reported -/
 theorem resolve_known :
     ∀ (day l : Nat) (ols : List Nat) (t : Nat) (ht : Mg.isMark t = false)
